@@ -356,6 +356,10 @@ def run(facts, tier):
             g4.violate("list-drop", "dropping a lazy list is not iterative any more: a long evaluated list would be dropped recursively (stack overflow)", where=dj[0]["sp"])
     rules.append(g4.finish())
 
+    # ---------------- G4.5 calls drop the caller's bindings in every evaluator (shared with C02 T2.8)
+    from c02 import rule_ctx_agreement
+    rules.append(rule_ctx_agreement(facts, "G4.5").finish())
+
     explanation = ("Constant stack/heap for all nests is a run-time quantity. Decided: the four decision tables of the tail-call optimisation as extracted from the typed HIR equal the design "
                    "(doc comments of compile.rs, the property text), both evaluators dispatch calls through the trampoline, and the two growth guards test the size hint after advancing.")
     return finish("C04", "other", rules, t0, tier, explanation, ["the tables are taken as the design; their adequacy for every nest shape is not decided"])
